@@ -502,6 +502,9 @@ func scenarioSize(sc *Scenario) int {
 
 func replayDir() string {
 	d := filepath.Join(verifRoot(), "replays")
+	if v := os.Getenv("VERIF_REPLAY_DIR"); v != "" {
+		d = v
+	}
 	os.MkdirAll(d, 0o755)
 	return d
 }
